@@ -8,7 +8,7 @@ for d in seeded/*/; do
   prop=$(echo "$name" | cut -d- -f1)
   extra=""
   case "$name" in
-    C02-B-*) extra="C14";; C01-A-*) extra="C02";; C11-2A-*|C11-B-*) extra="C12";;
+    C02-B-*) extra="C14";; C01-A-*) extra="C02";; C11-2A-*|C11-B-*) extra="C12";; C03-3B-*) extra="C02";;
     C18-B-*) extra="C11";; C03-2B-*) extra="C14";; C01-B-*|C03-A-*|C03-B-*) extra="";;
   esac
   cp "$d/patch.diff" /tmp/reeval-$$.diff; cp "$d/demo.py" /tmp/reeval-$$.py
